@@ -243,6 +243,42 @@ def check(ctx, run):
     dispatch.r11_7(ctx, run, rule='R13.7/R11.7', only=set(pub))
     from rules import walkers as _walkers
     _walkers.w_pair(ctx, run, 'R13.9/R05.14', only=lambda p_: p_.startswith('functions::array_'))
+    result_always_written(ctx, run, 'R13.11')
     from rules import editing as _editing
     _editing.r06_17(ctx, run, rule='R13.10/R06.17', only=lambda p_: p_.startswith('functions::array_'))
     return report.finish(run, level='other', explanation=EXPLANATION, assumptions=["A1: valid documents"])
+
+
+def result_always_written(ctx, run, rule='R13.11'):
+    """array_distinct / array_intersection / array_except produce an array for every input: a successful return that has handed nothing to the
+    output buffer (no build_into, no append, no callee that received the buffer) leaves the caller without a result — for an empty input
+    array the canonical result is the 4-byte empty array, not nothing."""
+    f = ctx.facts
+    for fn in ('functions::array_distinct_jsonb', 'functions::array_intersection_jsonb', 'functions::array_except_jsonb'):
+        b = f.bodies.get(fn)
+        if b is None:
+            run.undecided(rule, fn, 'result-written', 'function not found (anchor lost)')
+            continue
+        bufs = [k for k in range(1, b.argc + 1) if 'Vec<u8>' in str(b.local_ty(k).get('s')) and b.local_ty(k).get('mut')]
+        if not bufs:
+            run.undecided(rule, fn, 'result-written', 'no `&mut Vec<u8>` output parameter (interface changed): not decided', f'{b.file}:{b.line}')
+            continue
+        paths, loops = editing.region_paths(b)
+        bad = 0
+        n = 0
+        for q in paths:
+            if q.end[0] != 'return' or not (q.blocks and q.blocks[0] == 0):
+                continue
+            r = deref_all(q.ret) if q.ret is not None else None
+            if not (r is not None and agg_variant(r) and r[1][2] == 'Ok'):
+                continue
+            n += 1
+            wrote = any(any(deref_all(a_)[0] == 'init' and deref_all(a_)[1] in bufs for a_ in e[2]) for e in q.calls())
+            if not wrote:
+                bad += 1
+        loc = f'{b.file}:{b.line}'
+        if bad:
+            run.violation(rule, fn, 'result-written', f'{bad} path(s) return Ok(()) straight from the entry without handing the output buffer to anything: nothing is written, where every input '
+                          '(an empty array included) has an array as its result', loc)
+        else:
+            run.proved(rule, fn, 'result-written', f'every successful return reached without a loop ({n}) has passed the output buffer to a writer', loc)
